@@ -359,21 +359,61 @@ def _warnflag_chain(ctx, f):
 
 @rule('C05.g', min_instances=6)
 def wrappers_warnflag(ctx):
-    """wrappers: warnflag 1 iff evaluations >= _maxfun, else 2 iff generations >= _maxiter, else 0"""
+    """wrappers (every return path of the full output, locals substituted, pure helpers expanded): warnflag is 1 exactly where evaluations >= solver._maxfun is known, 2 where that is known false and generations >= solver._maxiter is known, 0 where both are known false"""
     for anchor in WRAPPERS:
         f = ctx.func(anchor)
-        init, chain = _warnflag_chain(ctx, f)
-        ctx.need(chain, 'no warnflag decision chain in %s' % f.qualname)
-        sv = ('name', 'solver')
-        want1 = T.mk_cmp('>=', ('attr', sv, 'evaluations'), ('attr', sv, '_maxfun'))
-        want2 = T.mk_cmp('>=', ('attr', sv, 'generations'), ('attr', sv, '_maxiter'))
-        got = [(tt, v) for tt, v, _ in chain if tt is not None]
-        ok_ = init == 0 and len(got) >= 2 and got[0] == (want1, 1) and got[1] == (want2, 2) and \
-            all(v in (0, None) for tt, v, _ in chain[2:])
-        ctx.stats['terms_compared'] += 2
-        ctx.check(ok_, f.qualname, 'warnflag chain = [evals>=maxfun -> 1, gens>=maxiter -> 2, else 0]',
-                  'warnflag chain is init=%r %s' % (init, [(T.show(tt) if tt else 'else', v) for tt, v, _ in chain]),
-                  f, chain[0][2])
+        rts = return_terms(f.node)
+        ctx.need(rts, '%s: no return value' % f.qualname)
+        n = 0
+        bad = None
+        for p, term, b, conds in rts:
+            elems = flatten_seq(term)
+            if not elems or len(elems) < 5:
+                continue
+            sol = elems[0][1] if elems[0][0] == 'attr' else None      # the solver whose state is reported
+            if sol is None:
+                continue
+            wf = expand_helpers(ctx, f, elems[4])
+            evals = [('attr', sol, 'evaluations'), ('sub', ('attr', sol, '_fcalls'), T.num(0))]
+            gens = [('attr', sol, 'generations')]
+            c1 = [T.mk_cmp('>=', e_, ('attr', sol, '_maxfun')) for e_ in evals]
+            c2 = [T.mk_cmp('>=', g_, ('attr', sol, '_maxiter')) for g_ in gens]
+            for cl, leaf in T.cases(T.simp(wf)):
+                n += 1
+                lits = [(c, tr) for c, tr, _ in conds] + list(cl)
+                know = dict(lits)
+                k1 = [decided(c, lits) for c in c1 if any(c in T.subterms(l) for l, _ in lits)]
+                k2 = [decided(c, lits) for c in c2 if any(c in T.subterms(l) for l, _ in lits)]
+                v = T.poly_const(leaf)
+                if v == 1:
+                    ok_ = True in k1
+                elif v == 2:
+                    ok_ = False in k1 and True in k2
+                elif v == 0:
+                    ok_ = False in k1 and False in k2
+                else:
+                    ok_ = False
+                if not ok_:
+                    bad = (p, leaf, know)
+        ctx.need(n >= 3, '%s: warnflag cases not recognised in the full output (found %d)' % (f.qualname, n))
+        ctx.stats['terms_compared'] += n
+        ctx.check(bad is None, f.qualname, '%d cases: warnflag 1 <- evals>=maxfun, 2 <- gens>=maxiter (else), 0 otherwise' % n,
+                  'warnflag is %s where the path knows %s' % (T.show(bad[1]) if bad else '', [(T.show(c)[:50], v) for c, v in list((bad[2] if bad else {}).items())[:4]]),
+                  f, bad[0].exit_node if bad else f.node)
+
+
+def _split_lit(c, tr):
+    """{atom: truth} entailed by the literal (c, tr): negations stripped, a true conjunction / false disjunction split"""
+    while isinstance(c, tuple) and c and c[0] == 'not':
+        c, tr = c[1], not tr
+    out = {c: tr}
+    if c[0] == 'and' and tr:
+        for x in c[1:]:
+            out.update(_split_lit(x, True))
+    if c[0] == 'or' and not tr:
+        for x in c[1:]:
+            out.update(_split_lit(x, False))
+    return out
 
 
 @rule('C05.e', min_instances=2)
@@ -381,7 +421,9 @@ def solve_loops_on_step(ctx):
     """_Solve: each `while not stop` loop reassigns stop only from self.Step(...); collapse loop re-enters only on a non-empty Collapse()"""
     f = ctx.func(AS + '._Solve')
     sn = selfname_of(f)
-    loops = [n for n in walk_no_nested(f.node) if isinstance(n, ast.While)]
+    # (the stepping loop may live in a nested helper of _Solve that is called from it)
+    scopes = [f.node] + [g.node for q, g in f.module.funcs.items() if g.parent is f]
+    loops = [n for sc in scopes for n in walk_no_nested(sc) if isinstance(n, ast.While)]
     inner = [w for w in loops if isinstance(w.test, ast.UnaryOp) and isinstance(w.test.op, ast.Not) and isinstance(w.test.operand, ast.Name)]
     ctx.need(inner, 'no `while not <stop>` loop in _Solve')
     for w in inner:
@@ -415,7 +457,12 @@ def _final_attr_cases(ctx, f, attr):
         lits = []
         for e in p.events:
             if e[0] == 'cond':
-                lits.append((T.simp(b.t(e[1])), e[2]))
+                c_, tr_ = T.simp(b.t(e[1])), e[2]
+                while isinstance(c_, tuple) and c_ and c_[0] == 'not':
+                    c_, tr_ = c_[1], not tr_
+                if isinstance(c_, tuple) and c_ and c_[0] == 'cmp' and c_[1] == 'isnot':
+                    c_, tr_ = ('cmp', 'is') + c_[2:], not tr_
+                lits.append((c_, tr_))
             elif e[0] == 'stmt':
                 st = e[1]
                 if isinstance(st, ast.AugAssign) and is_self_attr(st.target, None, sn):
